@@ -150,12 +150,15 @@ impl RdfPlanner {
         }
 
         // Create the lazy scanning operator
-        let operator: Box<dyn Operator> = Box::new(RdfTripleScanOperator::new(
-            Arc::clone(&self.store),
-            pattern,
-            output_mask,
-            self.chunk_size,
-        ));
+        let operator: Box<dyn Operator> = Box::new(
+            RdfTripleScanOperator::new(
+                Arc::clone(&self.store),
+                pattern,
+                output_mask,
+                self.chunk_size,
+            )
+            .with_tx_id(self.tx_id),
+        );
 
         // A variable that occurs more than once in the pattern (?x <p> ?x) must be bound to the
         // same term at every position: keep the rows whose columns agree and emit the variable once.
@@ -1737,6 +1740,8 @@ struct RdfTripleScanOperator {
     triples: Option<Vec<Arc<Triple>>>,
     /// Current position in the triples.
     position: usize,
+    /// Transaction whose pending inserts and deletes the scan also sees.
+    tx_id: Option<TxId>,
 }
 
 impl RdfTripleScanOperator {
@@ -1753,13 +1758,20 @@ impl RdfTripleScanOperator {
             chunk_size,
             triples: None,
             position: 0,
+            tx_id: None,
         }
+    }
+
+    /// Makes the scan read the pending operations of `tx_id` (read-your-writes).
+    fn with_tx_id(mut self, tx_id: Option<TxId>) -> Self {
+        self.tx_id = tx_id;
+        self
     }
 
     /// Lazily load matching triples on first access.
     fn ensure_triples(&mut self) {
         if self.triples.is_none() {
-            self.triples = Some(self.store.find(&self.pattern));
+            self.triples = Some(self.store.find_with_pending(&self.pattern, self.tx_id));
         }
     }
 
